@@ -756,6 +756,26 @@ func (c *Conn) RunWTx(tx WTx, cur *oracle.Image) (res WTxResult) {
 	return
 }
 
+// LeaveWAL is the first half of PRAGMA journal_mode=DELETE|TRUNCATE|PERSIST on a WAL database
+// (sqlite3PagerCloseWal): with no other connection attached, everything in the log is checkpointed into the
+// database file, the connection drops its wal-index and log handles and unlinks both files. The caller then
+// runs the rollback-journal transaction that rewrites the version bytes of page 1 (RTx{FromWAL: true}).
+func (c *Conn) LeaveWAL() error {
+	if err := c.Checkpoint("PASSIVE", 0); err != nil {
+		return err
+	}
+	c.Close()
+	for _, suffix := range []string{"-wal", "-shm"} {
+		if c.M.Exists(c.Name + suffix) {
+			c.step("unlink " + c.Name + suffix)
+			if err := c.M.Remove(c.Name + suffix); err != nil {
+				return err
+			}
+		}
+	}
+	return nil
+}
+
 // Checkpoint runs sqlite3WalCheckpoint in the given mode:
 // PASSIVE | FULL | RESTART | TRUNCATE. maxFrames > 0 limits a PASSIVE
 // checkpoint to the first maxFrames frames (as if a reader pinned the rest).
